@@ -1,5 +1,4 @@
-CONSTANT Tracing = FALSE
+CONSTANT N = 2
 SPECIFICATION Spec
-INVARIANT Inv Emit
-VIEW View
+INVARIANT InOrder
 CHECK_DEADLOCK FALSE
